@@ -1,4 +1,5 @@
 import Rare.Proofs.C10
+import Rare.Proofs.C10Tree
 /-!
 # C10 — optimisation and user-defined functions never change an expression's value
 
@@ -8,7 +9,7 @@ observe its argument stages only by running them.  The theorems below hold for *
 of function builders (all helper families, user functions, builders not yet written).
 -/
 namespace Rare.C10
-open Rare.Expr
+open Rare Rare.Expr Rare.C09
 
 /-- `EvalStaticStage` reports "constant" only for a stage that makes no look-up at all; such a stage
     is a literal and has the same value in every context (so folding it is sound). -/
@@ -58,6 +59,88 @@ theorem call_opt_eq (reg : Registry) (name : List Char) (body : List Stage) (t :
       ∀ ctx, (buildKey s').run ctx = (buildKey s).run ctx :=
   optimize_sound _ t s e h
 
+/-- **Substitution composes ("doubly inlined").**  A function `outer` whose body calls `inner` with the
+    argument stages `innerArgs` (which mention `outer`'s own parameters `{0}`, `{1}`, …), called with
+    `outerArgs`: the stage is the inner body with ITS parameters replaced by `innerArgs` in which `outer`'s
+    parameters have been replaced by `outerArgs` – literally, as interaction trees.  (A forwarded parameter
+    is resolved against the caller's arguments, never against the match; the seeded change
+    `C10-nested-userfn-unwrap` breaks exactly this.) -/
+theorem call_inline_compose {α : Type} (outerArgs innerArgs : List Stage) (body : Comp α) :
+    withArgs outerArgs (withArgs innerArgs body) = withArgs (innerArgs.map (withArgs outerArgs)) body :=
+  withArgs_compose outerArgs innerArgs body
+
+/-- **Nested user functions, every depth, any bodies.**  `levels` lists the argument stages of a chain of
+    calls from the innermost (made in the body of the function one level out) to the outermost (made by the
+    template); `Levels ctx levels inner` says `inner` is the context built level by level: each level's
+    arguments evaluated in the context of the level OUTSIDE it (`argCtx`).  Then the whole nest evaluates, in
+    the caller's match `ctx`, to the innermost body evaluated in `inner`; named keys and negative indices
+    are the outermost caller's at every level; at every level an index beyond that level's arguments is the
+    empty string. -/
+theorem call_nested_eq_body_stages {α : Type} (ctx inner : Ctx) (levels : List (List Stage)) (body : Comp α)
+    (h : Levels ctx levels inner) :
+    (nest body levels).run ctx = body.run inner ∧ inner.getKey = ctx.getKey ∧
+      (∀ i : Int, i < 0 → inner.getMatch i = ctx.getMatch i) ∧
+      (∀ (as : List Stage) (outer : List (List Stage)) (i : Nat), levels = as :: outer → as.length ≤ i →
+        inner.getMatch i = []) := by
+  refine ⟨nest_run ctx levels inner body h, (levels_passthrough h).1, (levels_passthrough h).2, ?_⟩
+  intro as outer i hl hi
+  subst hl
+  cases h with
+  | cons mid _ _ vals _ _ => exact (argCtx_facts mid as.length vals).2.2.1 i hi
+
+/-- **A call equals its inlined body, at every depth of nesting – on templates.**  A definitions file whose
+    bodies are expression trees over the standard fragment of C09 and the functions defined EARLIER in the
+    file (`DefsOk`; any print style per definition), loaded by the `LoadDefinitions` model into the standard
+    registry (induction over the definition order, as the loader builds the registry): every definition is
+    added, and every tree `e` over the fragment and the file's functions, printed with any style, compiles
+    without errors – optimiser on or off – and evaluates in every match context to `evalTree` under `semDefs`,
+    i.e. with every funcs-file call replaced by its body, `{i}` bound to the call's argument values
+    (`call_body_unfold`), the body's own calls unfolded the same way. -/
+theorem call_nested_eq_body (known : List String) (defs : List (Def × Style)) (hok : DefsOk (fun _ => stdSem) [] defs)
+    (opt : Bool) (σ : Style) (e : C09.Expr) (ha : AdmissibleTop e)
+    (hf : fragOkS (semDefs (fun _ => stdSem) (defs.map (·.1))) ((defs.map (·.1.1)).reverse) e = true) :
+    ∃ fs, loadDefs (stdRegistry known) (defs.map phrase) = .ok (withFuncs (stdRegistry known) fs, fs) ∧
+      ∃ stages, compile (withFuncs (stdRegistry known) fs) opt (printTop σ e) = .ok (stages, []) ∧
+        ∀ ctx, (buildKey stages).run ctx = .ok (evalTree (envC (semDefs (fun _ => stdSem) (defs.map (·.1))) ctx) e) :=
+  call_nested_tree known defs hok opt σ e ha hf
+
+/-- What `semDefs` says about a call of the function just defined: the body tree where `{i}` is the value of
+    the call's `i`-th argument in the caller's match, an index beyond the arguments is empty, named keys and
+    negative indices are the caller's – and the names inside the body mean what they meant before this
+    definition (so a body cannot call itself or a later function: see `loader_rejects_unknown_callee`). -/
+theorem call_body_unfold (sem : Sem) (n : List Char) (B : C09.Expr) (ctx : Ctx) (args : List C09.Expr) :
+    let vals := evalArgs (envC (semAdd sem (n, B)) ctx) args
+    let inner := argCtx ctx args.length vals
+    evalTree (envC (semAdd sem (n, B)) ctx) (.call n args) = evalTree (envC sem inner) B ∧
+    inner.getKey = ctx.getKey ∧ (∀ i : Int, i < 0 → inner.getMatch i = ctx.getMatch i) ∧
+    (∀ i : Nat, args.length ≤ i → inner.getMatch i = []) ∧
+    (∀ i : Nat, i < args.length → inner.getMatch i = vals.getD i []) := by
+  intro vals inner
+  exact ⟨semAdd_call sem n B ctx args, argCtx_facts ctx args.length vals⟩
+
+/-- **What the loader adds to the registry.**  `LoadDefinitions` succeeds with `(r, fs)` iff `fs` is the
+    list of accepted definitions in file order (`Loaded`: a phrase without expression is skipped; a phrase
+    whose expression has a compile error – or whose name is not well-formed UTF-8, hence uncallable – is
+    skipped; every other phrase adds `userFunction` of its expression compiled, optimiser on, against the
+    registry extended by exactly the functions added BEFORE it) and `r` is the registry extended by `fs` in
+    that order (later definitions shadow earlier ones and builtins). -/
+theorem loader_registry (reg r : Registry) (defs : List (Option (Bytes × Bytes))) (fs : List (List Char × Builder)) :
+    loadDefs reg defs = .ok (r, fs) ↔ Loaded reg defs fs ∧ r = withFuncs reg fs := by
+  constructor
+  · exact loadDefs_spec defs reg r fs
+  · rintro ⟨h, rfl⟩; exact loadDefs_of_loaded h
+
+/-- **No forward references, no recursion.**  A definition whose body is a call `{g …}` of a name unknown
+    at that point of the file – not a builtin, not defined earlier: its own name, or a name defined later –
+    is a compile error (`ErrorMissingFunction`), is logged and NOT added; the loader continues as if the line
+    were absent. -/
+theorem loader_rejects_unknown_callee (reg : Registry) (name : Bytes) (w0 g w1 : List Char) (p1 : C09.Piece)
+    (more : List (List Char × C09.Piece)) (trail : List Char) (rest : List (Option (Bytes × Bytes)))
+    (hl : LayoutOk true ((w0, .bare g) :: (w1, p1) :: more)) (ht : allSpace trail = true) (hg : reg g = none) :
+    loadDefs reg (some (name, encodeRunes ('{' :: ((layout ((w0, .bare g) :: (w1, p1) :: more) ++ trail) ++ ['}']))) :: rest)
+      = loadDefs reg rest :=
+  loadDefs_unknown_callee reg name w0 g w1 p1 more trail rest hl ht hg
+
 /-- **Layout of a definitions file is irrelevant.**  Comments (`#` to end of line), blank lines and
     surrounding white space may appear anywhere, also between the lines of a `\`-continued
     definition: the phrases are those of the cleaned non-blank lines, a line ending in `\` being
@@ -81,5 +164,42 @@ theorem loader_split (name expr : Bytes) (hn : 32 ∉ name) :
     a blank line yields the two expected phrases. -/
 example : joinPhrases (scanLines [102, 32, 120, 92, 10, 35, 99, 10, 32, 121, 32, 35, 122, 10, 10, 103, 32, 49, 10]) []
     = [[102, 32, 120, 121], [103, 32, 49]] := by decide
+
+/-! ### Non-vacuity of the nesting theorems -/
+
+/-- `double {sumi {0} {0}}`, `quad {double {double {0}}}`, `wrap {if {1} {double {0}} {src}}` – three levels of
+    nesting, a forwarded parameter, a named key, an argument that may be missing. -/
+def exStyle : Style := fun p =>
+  { quote := p.length % 2 == 1, lead := [0], trail := if p = [] then [] else [24, 1],
+    sep := fun i => (i % 2, if i = 0 then [12] else []) }
+
+def exDefs : List (Def × Style) :=
+  [(("double".toList, .call "sumi".toList [.group 0, .group 0]), exStyle),
+   (("quad".toList, .call "double".toList [.call "double".toList [.group 0]]), exStyle),
+   (("wrap".toList, .call "if".toList [.group 1, .call "quad".toList [.group 0], .key "src".toList]), exStyle)]
+
+example : DefsOk (fun _ => stdSem) [] exDefs := by
+  refine ⟨by decide +kernel, ?_, by decide +kernel, by decide +kernel, ?_, by decide +kernel, by decide +kernel, ?_,
+    by decide +kernel, trivial⟩ <;>
+  · simp only [AdmissibleTop, Admissible, AdmissibleArgs]; decide
+
+/-- `{wrap 5 x}` = 20, `{wrap 5}` (argument missing at the outer level) = the caller's `src` key. -/
+example : evalTree (envC (semDefs (fun _ => stdSem) (exDefs.map (·.1))) ⟨fun _ => ascii "9", fun _ => ascii "f.log"⟩)
+      (.call "wrap".toList [.lit "5".toList, .lit "x".toList]) = ascii "20" ∧
+    evalTree (envC (semDefs (fun _ => stdSem) (exDefs.map (·.1))) ⟨fun _ => ascii "9", fun _ => ascii "f.log"⟩)
+      (.call "wrap".toList [.lit "5".toList]) = ascii "f.log" := by decide +kernel
+
+example : fragOkS (semDefs (fun _ => stdSem) (exDefs.map (·.1))) ((exDefs.map (·.1.1)).reverse)
+    (.call "wrap".toList [.group 0, .call "quad".toList [.key "k".toList]]) = true := by decide +kernel
+
+/-- Two levels: `{outer a b}` with body `{inner {1} {0}}` – the contexts of `call_nested_eq_body_stages`. -/
+example : Levels ⟨fun _ => [1], fun _ => [2]⟩ [[Comp.match_ 1, Comp.match_ 0], [Stage.lit [7], Stage.lit [8]]]
+    (argCtx (argCtx ⟨fun _ => [1], fun _ => [2]⟩ 2 [[7], [8]]) 2 [[8], [7]]) :=
+  .cons _ _ _ _ [[8], [7]] (.cons _ _ _ _ [[7], [8]] (.nil _) rfl) rfl
+
+/-- `f {f {0}}` with no earlier `f`: rejected (recursion); so is `f {g {0}}` with `g` defined later. -/
+example : LayoutOk true [([], .bare "f".toList), ([' '], .braced "0".toList)] ∧ allSpace [] = true :=
+  ⟨⟨rfl, Or.inl rfl, (by decide : bare "f".toList = true), by decide, Or.inr (by decide),
+    Inner.char '0' _ (by decide) Inner.nil, trivial⟩, rfl⟩
 
 end Rare.C10
